@@ -505,6 +505,34 @@ func c15Debugged(c *c15Run, kill bool) (threads []*c15Thread, lg *memLog, rec *r
 		}
 		return true
 	}
+	if c.timing == "toggle" {
+		// a second controller edits break points on lines the program never executes while the
+		// threads run: the answer of the model is unchanged, the process must survive
+		stopToggle := make(chan struct{})
+		defer close(stopToggle)
+		for w := 0; w < 2; w++ {
+			go func(w int) {
+				for k := w; ; k++ {
+					select {
+					case <-stopToggle:
+						return
+					default:
+					}
+					l := 900 + k%7
+					switch k % 4 {
+					case 0:
+						dbg.SetBreakPoint(c15Source, l)
+					case 1:
+						dbg.DisableBreakPoint(c15Source, l)
+					case 2:
+						dbg.SetBreakPoint("other", l)
+					default:
+						dbg.RemoveBreakPoint(c15Source, l)
+					}
+				}
+			}(w)
+		}
+	}
 	// the controller
 	last := time.Now()
 	ctlRng := NewRand(c.seed + 77)
@@ -685,10 +713,16 @@ func c15Plain(src string) (string, []string, []string) {
 //	A2: parse lib, main | P1 P2 | attach | P3
 //	A3: attach | parse lib, main | P1 | detach | P2 | attach | P3
 //	A4: parse lib, main | attach | P1 P2
+//	A5: parse lib, main | P1 P2, the program itself attaches the debugger by calling x.attach()
+//	    INSIDE a function call (the debugger then sees the return of calls it never saw start)
 //
 // The result is the list of the phases' results.
 func c15Life(mode string, erp *interpreter.ECALRuntimeProvider, lib, main string, vs parser.Scope, tid uint64,
 	attach, detach func(), wrap func(*parser.ASTNode)) (interface{}, error) {
+	if mode == "A5" {
+		c15AttachHook = attach
+		defer func() { c15AttachHook = nil }()
+	}
 	var libAst, mainAst *parser.ASTNode
 	var results []interface{}
 	var firstErr error
@@ -718,7 +752,7 @@ func c15Life(mode string, erp *interpreter.ECALRuntimeProvider, lib, main string
 		results = append(results, []interface{}{res, e})
 	}
 	for _, step := range strings.Split(map[string]string{
-		"A0": "a,l,m,1,2", "A1": "l,1,a,m,2", "A2": "l,m,1,2,a,3", "A3": "a,l,m,1,d,2,a,3", "A4": "l,m,a,1,2",
+		"A0": "a,l,m,1,2", "A1": "l,1,a,m,2", "A2": "l,m,1,2,a,3", "A3": "a,l,m,1,d,2,a,3", "A4": "l,m,a,1,2", "A5": "l,m,1,2",
 	}[mode], ",") {
 		switch step {
 		case "a":
@@ -737,6 +771,9 @@ func c15Life(mode string, erp *interpreter.ECALRuntimeProvider, lib, main string
 	}
 	return results, firstErr
 }
+
+// c15AttachHook is what the stdlib function x.attach() does in the running case.
+var c15AttachHook func()
 
 // c15LifePlain: the reference outcome (no debugger at all) and the visit trace of the phases
 // in which the mode has the debugger attached — recorded with a debugger that is attached
@@ -792,6 +829,68 @@ func c15RunL(f []string, payload string) string {
 	}
 	CountRun("L." + c.life)
 	return r
+}
+
+// c15RunZ: n threads run (and may arrive at break points) while a controller calls StopThreads
+// over and over: every thread must end (killed or finished) and the process must survive.
+func c15RunZ(f []string, payload string) string {
+	n, _ := strconv.Atoi(f[0])
+	src := unhx(f[2])
+	erp := interpreter.NewECALRuntimeProvider("t", nil, &memLog{})
+	defer erp.Cron.Stop()
+	dbg := interpreter.NewECALDebugger(newGlobalScope())
+	erp.Debugger = dbg
+	dbg.BreakOnError(false)
+	for _, op := range c15List(f[1], ",") {
+		c15ApplyOp(dbg, op)
+	}
+	ast, err := parser.ParseWithRuntime(c15Source, src, erp)
+	if err == nil {
+		err = ast.Runtime.Validate()
+	}
+	if err != nil {
+		return "bad-program"
+	}
+	// every worker evaluates the program `rounds` times, each time as a new thread (a killed
+	// thread ends its goroutine): interrogation states are created and removed all the time
+	rounds := 1
+	if len(src) < 200 {
+		rounds = 120
+	}
+	var wg sync.WaitGroup
+	for i := 0; i < n; i++ {
+		wg.Add(1)
+		go func() {
+			defer wg.Done()
+			for r := 0; r < rounds; r++ {
+				tid := erp.NewThreadID()
+				one := make(chan struct{})
+				go func() {
+					defer close(one)
+					defer func() { recover() }()
+					ast.Runtime.Eval(newGlobalScope(), make(map[string]interface{}), tid)
+				}()
+				<-one
+			}
+		}()
+	}
+	done := make(chan struct{})
+	go func() { wg.Wait(); close(done) }()
+	deadline := time.After(30 * time.Second)
+	for k := 0; ; k++ {
+		select {
+		case <-done:
+			CountRun("Z")
+			return fmt.Sprintf("ended=%d", n)
+		case <-deadline:
+			return "HANG-stopthreads-did-not-release"
+		default:
+		}
+		dbg.StopThreads(0)
+		if k%16 == 0 {
+			runtime.Gosched()
+		}
+	}
 }
 
 func c15Lines(xs []int) string {
@@ -1331,6 +1430,12 @@ func init() {
 			return 2
 		},
 		Setup: func() {
+			registerX("attach", func(args []interface{}) (interface{}, error) {
+				if h := c15AttachHook; h != nil {
+					h()
+				}
+				return nil, nil
+			})
 			if c15HooksPresent() {
 				CountRun("hooks.present")
 			} else {
@@ -1391,10 +1496,40 @@ func init() {
 					g.Emit(fmt.Sprintf("D 1 00 %s %s %s 1 %s %s", d[1], d[2], timing, c15TraceStr(trace), hx(d[0])))
 				}
 			}
+			// concurrent controllers: break point edits / StopThreads WHILE n >= 4 threads run in
+			// tight loops (a process death is the result CRASH)
+			loops := []string{
+				"s := 0\nfor i in range(1, 4000) {\n    s := s + i\n}\ns",
+				"func f(a) {\n    return a + 1\n}\ns := 0\nfor i in range(1, 1500) {\n    s := f(s)\n}\ns",
+			}
+			for li, src := range loops {
+				_, _, trace := c15Plain(src)
+				reps := 3
+				if g.Thorough() {
+					reps = 12
+				}
+				for k := 0; k < reps; k++ {
+					n := 4 + (k+li)%3
+					g.Count("D.toggle")
+					// the visit trace is long: the model only needs to know that no break point lies on it
+					short := trace
+					if len(short) > 40 {
+						short = short[:40]
+					}
+					g.Emit(fmt.Sprintf("D %d 00 s950,d951 - toggle %d %s %s", n, k, c15TraceStr(short), hx(src)))
+					g.Count("Z")
+					bp := []string{"s1,s2", "s1", "s2,s3", "s1,s3"}[k%4]
+					g.Emit(fmt.Sprintf("Z %d %s %s", n, bp, hx("a := 1\nb := a + 1\nc := b + 1\nc")))
+				}
+			}
 			// life cycle: code loaded in steps, the debugger attached at different points; break
 			// points in code parsed before and after the attach point; sources "lib" and "main"
 			emitL := func(lib, main string, r *Rand, bpops, script string) {
-				for _, mode := range []string{"A0", "A1", "A2", "A3", "A4"} {
+				modes := []string{"A0", "A1", "A2", "A3", "A4"}
+				if strings.Contains(lib, "x.attach()") {
+					modes = []string{"A5"}
+				}
+				for _, mode := range modes {
 					_, _, trace := c15LifePlain(mode, lib, main)
 					if len(trace) > 1200 {
 						g.Count("skipped.long-trace")
@@ -1437,6 +1572,9 @@ func init() {
 			}
 			emitL("func f(a) {\n    b := a + 1\n    return b * 2\n}\nlibv := 5", "x := f(1)\ny := f(x) + libv\n[x, y]", NewRand(5), "s1002,s2002", "R,R,R,R,R,R")
 			emitL("func f(a) {\n    b := a + 1\n    return b * 2\n}\nlibv := 5", "x := f(1)\ny := f(x) + libv\n[x, y]", NewRand(6), "s1003,s1005,s2001", "I,O,U,R,I,I,O,R")
+			attLib := "\nfunc att(a) {\n    b := a + 1\n    x.attach()\n    c := b + 1\n    return c\n}\nfunc att2(a) {\n    d := att(a)\n    return d + 1\n}"
+			emitL("libv := 5"+attLib, "q := att(1)\nr := att2(q)\n[q, r]", NewRand(7), "s1005,s2002", "R,R,R,R")
+			emitL("libv := 5"+attLib, "q := att2(1)\nr := att(q)\n[q, r]", NewRand(8), "s1005,s1006,s2002", "I,U,O,R,R,R")
 			nLife := 40
 			if g.Thorough() {
 				nLife = 600
@@ -1447,6 +1585,9 @@ func init() {
 					lib = "libv := 1"
 				}
 				emitL(lib, main, g.R, "", "")
+				if i%3 == 0 {
+					emitL(lib+attLib, "q0 := "+[]string{"att", "att2"}[i%2]+"(1)\n"+main, g.R, "", "")
+				}
 			}
 			for i, src := range c15Corpus {
 				emitD(src, NewRand(uint64(1000+i)), true)
@@ -1464,6 +1605,8 @@ func init() {
 				return c15RunK(f[1:], payload)
 			case f[0] == "L" && len(f) == 8:
 				return c15RunL(f[1:], payload)
+			case f[0] == "Z" && len(f) == 4:
+				return c15RunZ(f[1:], payload)
 			}
 			return "bad-payload"
 		},
